@@ -33,7 +33,7 @@ from .. import core, tla
 
 UNIT = 1 << 24
 SYMS = {'eq': '=', 'ne': '!=', 'lt': '<', 'le': '<=', 'gt': '>', 'ge': '>='}
-CFGS = ['v20', 'v30', 'v31', 'c20', 'c31', 'c10']
+CFGS = ['v20', 'v30', 'v31', 'c20', 'c31', 'c10', 'u31']     # u31: 3.1 parser, NO implicit timezone in the context
 # the white space of <w>, <x>, y/@t is written with character references so that the parser keeps TAB / CR / LF
 DOC = ('<r><a>1</a><b>abc</b><w>&#10; true&#10;</w><x>&#13;&#10;&#9; 1 &#13;&#10;</x><y t="&#9;true&#9;"/></r>')
 NODE_PATH = {'1': '/r/a', 'abc': '/r/b', '\n true\n': '/r/w', '\r\n\t 1 \r\n': '/r/x', '\ttrue\t': '/r/y/@t'}
@@ -179,7 +179,32 @@ def rel_texts(action, args, L, R, cfg):
     return out
 
 
+VIA = {'revrev': 'reverse(reverse({}))', 'subseq': 'subsequence({}, 1)', 'for': '(for $x in {} return $x)',
+       'filter': '({})[true()]', 'comma': '({}, ())', 'arr': '[{}]?*', 'map': 'map{{"k": {}}}?k'}
+
+
+def via_text(action, args, L, R):
+    """Logic!FnVia / FnRange / BinVia / BinRange: one operand is produced by a sequence construct"""
+    f = args[0]
+    if action in ('FnVia', 'BinVia'):
+        side = args[2] if action == 'BinVia' else 'L'
+        src = L if side == 'L' else R
+        op = VIA[args[1]].format(render_seq(src, 'ctor'))
+    else:
+        side = args[3] if action == 'BinRange' else 'L'
+        op = f'({args[1]} to {args[2]})'
+    if action in ('FnVia', 'FnRange'):
+        return f'if ({op}) then "T" else "E"' if f == 'if' else f'{f}({op})'
+    other = render_seq(R if side == 'L' else L, 'lit')
+    return f'{op} {f} {other}' if side == 'L' else f'{other} {f} {op}'
+
+
+VIA_ACTIONS = ('FnVia', 'FnRange', 'BinVia', 'BinRange')
+
+
 def expr_for(action: str, args: tuple, L, R, style: str):
+    if action in VIA_ACTIONS:
+        return via_text(action, args, L, R)
     if action == 'CmpLong':
         op, how, kl, kr = args
         return f'{render_short(pad(L, how, kl))} {SYMS[op]} {render_short(pad(R, how, kr))}'
@@ -220,7 +245,8 @@ def setup():
     _state['root'] = ET.XML(DOC)
     _state['cfg'] = {'v20': (XPath2Parser, {}), 'v30': (XPath30Parser, {}), 'v31': (XPath31Parser, {}),
                      'c20': (XPath2Parser, {'compatibility_mode': True}),
-                     'c31': (XPath31Parser, {'compatibility_mode': True}), 'c10': (XPath1Parser, {})}
+                     'c31': (XPath31Parser, {'compatibility_mode': True}), 'c10': (XPath1Parser, {}),
+                     'u31': (XPath31Parser, {})}
     try:
         from lxml import etree
         _state['lxml'] = etree.XML(DOC)
@@ -235,12 +261,13 @@ def evaluate(text: str, cfg: str, doc: bool = False, tree: str = 'et') -> str:
     from elementpath.exceptions import ElementPathError
     st = setup()
     cls, kw = st['cfg'][cfg]
+    tz = None if cfg == 'u31' else IMPLICIT_TZ
     try:
         if doc or '/r/' in text:
             root = st['root'] if tree == 'et' else st['lxml_tree']
-            r = elementpath.select(root, text, parser=cls, timezone=IMPLICIT_TZ, **kw)
+            r = elementpath.select(root, text, parser=cls, timezone=tz, **kw)
         else:                      # no node operand: no document needed (the context item is never used)
-            r = elementpath.select(None, text, item=0, parser=cls, timezone=IMPLICIT_TZ, **kw)
+            r = elementpath.select(None, text, item=0, parser=cls, timezone=tz, **kw)
     except ElementPathError as e:
         return (e.code or '?').split(':')[-1]
     except RecursionError:
@@ -437,6 +464,17 @@ def worker(job):
                         fails.append((features(action, args, L, R, cfg, 'rel', allowed, obs),
                                       dict(expr=text, cfg=cfg, doc=True), sorted(allowed), obs))
             continue
+        if action in VIA_ACTIONS:
+            text = via_text(action, args, L, R)
+            only31 = action in ('FnVia', 'BinVia') and args[1] in ('arr', 'map')
+            for cfg in (('v31',) if only31 else ('v20', 'v31', 'c20')):
+                allowed = res[cfg]
+                obs = evaluate(text, cfg)
+                n_eval += 1
+                if obs not in allowed:
+                    fails.append((features(action, args, L, R, cfg, 'via', allowed, obs),
+                                  dict(expr=text, cfg=cfg), sorted(allowed), obs))
+            continue
         if action == 'CmpLong':
             text = expr_for(action, args, L, R, 'lit')
             for cfg in ('v31', 'c20'):
@@ -449,6 +487,8 @@ def worker(job):
             continue
         for cfg in cfgs_for(action, args, L, R):
             allowed = res[cfg]
+            if not allowed or (cfg == 'u31' and action != 'Cmp'):
+                continue                       # configuration not applicable to this case
             if action == 'Cmp' and args[0] == 'val' and cfg == 'c10':
                 continue
             if 'UNSPEC' in allowed:
@@ -490,7 +530,7 @@ def plan_from_graph(g) -> list:
     """(action, args, lhs, rhs, res) for every result-producing edge."""
     out = []
     for s, d, a, args in g.edges:
-        if a in ('Cmp', 'Fn', 'Bin', 'CmpLong', 'BinW', 'NotBinW'):
+        if a in ('Cmp', 'Fn', 'Bin', 'CmpLong', 'BinW', 'NotBinW') + VIA_ACTIONS:
             src, dst = g.states[s], g.states[d]
             out.append((a, args, src['lhs'], src['rhs'], dst['res']))
     return out
@@ -503,7 +543,7 @@ def run(chk: core.Check) -> None:
         'spec/EBV.tla, Compare.tla, Logic.tla are the oracle; W3C sections are cited on every operator (no second oracle for the 2.0 tables)',
         'XPath 1.0 fragment of the tables cross-checked against libxml2 (lxml): disagreement = machinery failure',
         'where XPath 2.0 section 2.3.4 permits several outcomes (true vs. error of another pair; empty vs. XPTY0004) the whole set is accepted',
-        'implicit timezone +05:00 passed as select(timezone=...); code point collation; numeric values on the dyadic grid n/2^24 (exact promotion)',
+        'implicit timezone +05:00 passed as select(timezone=...); configuration u31 passes none: the library then uses UTC (implementation-defined); code point collation; numeric values on the dyadic grid n/2^24 (exact promotion)',
         'nodes are untyped elements of the document ' + DOC,
     ]
     plans = []
@@ -520,7 +560,7 @@ def run(chk: core.Check) -> None:
             raise tla.MachineryError(f'{module}: no Cmp/Fn/Bin edges in the graph')
         acts = {(p[0],) + tuple(p[1]) for p in plan}
         chk.coverage.setdefault('operations_fired', {})[module] = len(acts)
-        want = 12 + 48 if module == 'Compare' else 5 + 100       # Cmp + CmpLong; Fn/Bin + BinW/NotBinW
+        want = 12 + 48 if module == 'Compare' else 5 + 100 + 21 + 12 + 28 + 16   # Cmp + CmpLong; Fn/Bin + BinW/NotBinW + Via/Range
         if len(acts) != want:
             raise tla.MachineryError(f'{module}: {len(acts)} distinct operations fired, expected {want}')
         print(f'  {module}: states={r.distinct} edges={len(g.edges)} plan={len(plan)} tlc={r.wall_s:.1f}s', flush=True)
